@@ -56,7 +56,7 @@ Proof. intros. repeat split; apply alookup_aset_other; discriminate. Qed.
 Definition sop_nsp (o : sop) : option nsname :=
   match o with
   | SRecv _ p => Some (norm_hdr (p_nsp p))
-  | SVerdict _ n _ _ | SEmit _ n _ _ | SBcast n _ _ _ | SJoin _ n _ | SDisc _ n => Some n
+  | SVerdict _ n _ _ | SMwJoin _ n _ | SEmit _ n _ _ | SBcast n _ _ _ | SJoin _ n _ | SDisc _ n => Some n
   | SConnClose _ => None
   end.
 
@@ -160,6 +160,8 @@ Proof.
     unfold sock_close; simpl.
     eapply view_trans; [apply view_set_table_other | eapply view_trans; [apply view_set_nsp_other; auto | apply V1]].
     rewrite tbl_set_nsp. unfold tbl. now apply alookup_aremove_other.
+  - (* SMwJoin *)
+    unfold s_mwjoin. destruct (existsb _ _); [|apply view_refl]. simpl. now apply view_set_nsp_other.
   - (* SEmit *)
     unfold s_emit. destruct (sock_of _ _ _); [|apply view_refl].
     destruct ack; simpl; [now apply view_set_nsp_other | apply view_refl].
@@ -189,6 +191,7 @@ Proof.
     + unfold s_connect. destruct (ns_exists _); repeat constructor.
   - unfold s_verdict. destruct (existsb _ _); [|constructor]. destruct ok; [|repeat constructor].
     destruct (sc_closed _); simpl; repeat constructor.
+  - unfold s_mwjoin. destruct (existsb _ _); constructor.
   - unfold s_emit. destruct (sock_of _ _ _); [|constructor]. destruct ack; repeat constructor.
   - unfold s_bcast; simpl. apply Forall_forall. intros x Hx. apply in_map_iff in Hx as [k [<- _]]. reflexivity.
   - unfold s_join. destruct (sock_of _ _ _); constructor.
@@ -251,6 +254,7 @@ Proof.
     split; auto. unfold sock_close; simpl. rewrite !upd_same.
     apply view_set_table_same; [apply view_set_nsp_same; apply V1|].
     now rewrite !alookup_aremove_same.
+  - unfold s_mwjoin. rewrite Vn. destruct (existsb _ _); auto. simpl. split; auto. now apply view_set_nsp_same.
   - unfold s_emit. rewrite (sock_of_view _ _ _ _ V). destruct (sock_of _ _ _); auto. rewrite Vn.
     destruct ack; simpl; auto. split; auto. now apply view_set_nsp_same.
   - unfold s_bcast; simpl. rewrite Vn. auto.
@@ -406,6 +410,7 @@ Proof.
         -- subst c0. rewrite alookup_aset_same in H1. inversion H1; subst. auto.
         -- rewrite tbl_set_nsp in H1. congruence.
     + rewrite tbl_set_nsp in H1. congruence.
+  - exfalso. unfold s_mwjoin in H1. destruct (existsb _ _); simpl in H1; [rewrite tbl_set_nsp in H1|]; congruence.
   - exfalso. unfold s_emit in H1. destruct (sock_of _ _ _); [|simpl in H1; congruence].
     destruct ack; simpl in H1; [rewrite tbl_set_nsp in H1|]; congruence.
   - exfalso. simpl in H1. congruence.
@@ -446,6 +451,104 @@ Proof.
     + assert (Hd : tbl s c n <> Some sid) by (rewrite E0; congruence).
       destruct (table_gains_only_by_accept o s c n sid Hd H) as [-> _].
       exists l, []. reflexivity.
+Qed.
+
+(** * Reachable by broadcasts only after the accept
+    The adapter of a namespace delivers only to sockets that nsp.sockets knows; a socket enters
+    nsp.sockets only in the step in which nsp.add succeeds for its CONNECT. *)
+Definition ids (ns : nstate) : list (N * N) := map (fun k => (ss_sid k, ss_conn k)) (ns_socks ns).
+
+Lemma ids_ns_remove sid ns x : In x (ids (ns_remove sid ns)) -> In x (ids ns).
+Proof.
+  unfold ids, ns_remove; simpl. intros H. apply in_map_iff in H as [k [<- Hk]].
+  apply filter_In in Hk as [Hk _]. apply in_map_iff. eauto.
+Qed.
+
+Lemma ids_ns_update k ns : ids (ns_update k ns) = ids ns.
+Proof.
+  unfold ids, ns_update; simpl. rewrite map_map. apply map_ext. intros k'.
+  destruct (ss_sid k' =? ss_sid k); reflexivity.
+Qed.
+
+Lemma ids_close_fold t f n x :
+  In x (ids (fold_right (fun kv g => upd g (fst kv) (ns_remove (snd kv) (g (fst kv)))) f t n)) -> In x (ids (f n)).
+Proof.
+  induction t as [|[k v] t IH]; simpl; auto. unfold upd at 1.
+  destruct (nseqb k n) eqn:E; simpl; auto. apply nseqb_eq in E; subst k.
+  intros H. apply ids_ns_remove in H. auto.
+Qed.
+
+Lemma socks_gain_only_by_accept o s n x :
+  In x (ids (sv_nsp (fst (sstep o s)) n)) ->
+  In x (ids (sv_nsp s n)) \/
+  (exists c sid, o = SVerdict c n true sid /\ x = (sid, c) /\ existsb (N.eqb c) (ns_held (sv_nsp s n)) = true).
+Proof.
+  intros H1.
+  destruct (closes o s) as [d|] eqn:Hc.
+  { left. rewrite (closes_spec _ _ _ Hc) in H1. unfold close_conn in H1; simpl in H1.
+    eapply ids_close_fold; eauto. }
+  destruct (sop_nsp o) as [a|] eqn:Hs.
+  2:{ destruct o; simpl in Hs; discriminate. }
+  destruct (nseqb a n) eqn:Ean.
+  2:{ left. apply nseqb_false in Ean. destruct (sstep_frame o s a n Hs Hc Ean) as [Hn _]. now rewrite Hn in H1. }
+  apply nseqb_eq in Ean; subst a.
+  destruct o; simpl in *; inversion Hs; subst; clear Hs.
+  - left. unfold s_recv in H1. set (n := norm_hdr (p_nsp p)) in *.
+    destruct (alookup n (table s c)) eqn:E; destruct (p_type p) eqn:T; simpl in Hc; try discriminate; simpl in H1.
+    + unfold sock_close in H1; simpl in H1. rewrite upd_same in H1. eapply ids_ns_remove; eauto.
+    + unfold s_event in H1. destruct (find_sock _ _); exact H1.
+    + unfold s_ack in H1. destruct (find_sock _ _); [|exact H1]. destruct (p_id p); [|exact H1].
+      destruct (take_ack _ _) as [[? ?]|]; [|exact H1]. simpl in H1. rewrite upd_same, ids_ns_update in H1. exact H1.
+    + unfold s_event in H1. destruct (find_sock _ _); exact H1.
+    + unfold s_ack in H1. destruct (find_sock _ _); [|exact H1]. destruct (p_id p); [|exact H1].
+      destruct (take_ack _ _) as [[? ?]|]; [|exact H1]. simpl in H1. rewrite upd_same, ids_ns_update in H1. exact H1.
+    + unfold s_connect in H1. destruct (ns_exists _); [|exact H1]. simpl in H1. rewrite upd_same in H1. exact H1.
+  - unfold s_verdict in H1. destruct (existsb (N.eqb c) _) eqn:Eh; [|left; exact H1].
+    destruct ok; simpl in H1.
+    + assert (Hadd : forall y, In y (ids (mkNS (ns_exists (sv_nsp s n)) (ns_socks (sv_nsp s n) ++ [mkSS sid c [] (pre_rooms c (ns_pre (sv_nsp s n)))])
+                                      (ns_ack (sv_nsp s n)) (remove_one c (ns_held (sv_nsp s n))) (pre_drop c (ns_pre (sv_nsp s n))))) ->
+                               In y (ids (sv_nsp s n)) \/ y = (sid, c)).
+      { intros y Hy. unfold ids in Hy; simpl in Hy. rewrite map_app in Hy. apply in_app_or in Hy as [Hy|Hy]; [now left|].
+        simpl in Hy. destruct Hy as [<-|[]]. now right. }
+      destruct (sc_closed (sv_conn s c)); simpl in H1.
+      * unfold sock_close in H1; simpl in H1. rewrite !upd_same in H1. apply ids_ns_remove in H1.
+        destruct (Hadd _ H1) as [?| ->]; [now left | right; eauto].
+      * rewrite upd_same in H1. destruct (Hadd _ H1) as [?| ->]; [now left | right; eauto].
+    + left. rewrite upd_same in H1. exact H1.
+  - left. unfold s_mwjoin in H1. destruct (existsb _ _); [|exact H1]. simpl in H1. rewrite upd_same in H1. exact H1.
+  - left. unfold s_emit in H1. destruct (sock_of _ _ _); [|exact H1].
+    destruct ack; [|exact H1]. simpl in H1. rewrite upd_same in H1. unfold ids in *; simpl in *.
+    rewrite map_map in H1. erewrite map_ext in H1; [exact H1|].
+    intros k'. simpl. destruct (ss_sid k' =? _); reflexivity.
+  - left. exact H1.
+  - left. unfold s_join in H1. destruct (sock_of _ _ _); [|exact H1]. simpl in H1. rewrite upd_same, ids_ns_update in H1. exact H1.
+  - left. unfold s_disc in H1. destruct (sock_of _ _ _); [|exact H1]. simpl in H1. rewrite upd_same in H1.
+    eapply ids_ns_remove; eauto.
+Qed.
+
+Theorem socks_only_after_accept names : forall l n sid c,
+  In (sid, c) (ids (sv_nsp (fst (srun l (server0 names))) n)) ->
+  exists l1 l2, l = l1 ++ SVerdict c n true sid :: l2.
+Proof.
+  intros l. induction l as [|o l IH] using rev_ind; intros n sid c H.
+  - simpl in H. contradiction.
+  - rewrite srun_snoc in H.
+    destruct (socks_gain_only_by_accept o _ n _ H) as [Hin|[c' [sid' [-> [E _]]]]].
+    + destruct (IH _ _ _ Hin) as [l1 [l2 ->]]. exists l1, (l2 ++ [o]). now rewrite <- app_assoc, <- app_comm_cons.
+    + inversion E; subst. exists l, []. reflexivity.
+Qed.
+
+(** every packet a broadcast in namespace n puts on a connection goes to a socket of n that was
+    accepted (successful nsp.add for that connection) earlier in the history: never to a socket whose
+    CONNECT is still being examined, whatever rooms a middleware joined it to *)
+Theorem broadcast_reaches_only_accepted names l n room ex tag c p :
+  In (OSend c p) (snd (s_bcast n room ex tag (fst (srun l (server0 names))))) ->
+  p_nsp p = n /\ exists sid l1 l2, l = l1 ++ SVerdict c n true sid :: l2.
+Proof.
+  unfold s_bcast; simpl. intros H. apply in_map_iff in H as [k [E Hk]]. inversion E; subst. split; [reflexivity|].
+  apply filter_In in Hk as [Hk _]. exists (ss_sid k).
+  apply (socks_only_after_accept names l n (ss_sid k) (ss_conn k)).
+  unfold ids. apply in_map_iff. exists k. auto.
 Qed.
 
 (** * Disconnecting one namespace keeps the others *)
